@@ -177,7 +177,8 @@ theorem C12.all_roots_reported_partial (cfg : Cfg) (roots : List File)
     one located warning per such item. -/
 theorem C12.strict_warns_only (f : File) (report : String) (cp : Bool)
     (h : ∀ l ∈ f.items, l.item.kind = .valid ∨ l.item.kind = .unknownAccount ∨
-        l.item.kind = .unknownCommodity ∨ l.item.kind = .unknownPayee) :
+        l.item.kind = .unknownCommodity ∨ l.item.kind = .unknownPayee ∨
+        l.item.kind = .unknownTag) :
     (run ⟨.strict, cp⟩ [f] report).stderr = [] ∧ (run ⟨.strict, cp⟩ [f] report).status = 0 ∧
     (run ⟨.strict, cp⟩ [f] report).stdout = report := by
   apply C12.valid_input_clean
@@ -185,7 +186,7 @@ theorem C12.strict_warns_only (f : File) (report : String) (cp : Bool)
   rw [List.mem_singleton] at hg; subst hg
   rw [invalidItems, List.filter_eq_nil_iff]
   intro l hl
-  rcases h l hl with hk | hk | hk | hk <;> simp [Located.invalid, hk, Kind.sev] <;> split <;> simp
+  rcases h l hl with hk | hk | hk | hk | hk <;> simp [Located.invalid, hk, Kind.sev] <;> split <;> simp
 
 /-! ### Non-vacuity: a concrete tree with an include, evaluated by the kernel -/
 
